@@ -238,6 +238,46 @@ def token_nodes():
     return out
 
 
+def bigbuf_query(propset, root, kind, L, in_object_name_len=1, timeout=3000, const_payload=False):
+    """single string/bytes token with a 2- or 4-byte length prefix; payload symbolic, no copy loop"""
+    from . import shapes
+    tb, tm = shapes.scalar_bytes("%s%d" % (kind, L))
+    hdr = len(tb) - L
+    if root == 1:
+        head = [0x40, 0x14, in_object_name_len] + [0] * in_object_name_len + tb[:hdr]
+        mask = [1, 1, 1] + [0] * in_object_name_len + [1] * hdr
+        tail = 0x41
+        script = ["GO", "N", "N", "LO"]
+    else:
+        head = [0x42] + tb[:hdr]
+        mask = [1] + [1] * hdr
+        tail = 0x43
+        script = ["GA", "N", "N", "LA"]
+    n = len(head) + L + 1
+    q = script_query(propset, script, n, 1 if root == 1 else 1, root, mode=1, J=None, timeout=timeout,
+                     extra={"SK_LEN": len(head), "SK_BYTES": ",".join(str(x) for x in head), "SK_MASK": ",".join(str(x) for x in mask),
+                            "SK_TAIL": tail, "BIGBUF": 1})
+    if const_payload:
+        q.defines["BIGCONST"] = 1
+    q.name = "bigtoken.p%d.%s%d.%s%s" % (propset, kind, L, "obj" if root == 1 else "arr", ".zero-payload" if const_payload else "")
+    q.array_fs = True
+    q.extra_flags += ["--max-field-sensitivity-array-size", str(n + 8)]
+    q.mem_gb = 8
+    q.unwind = n + 8
+    q.unwindset = {"_parse_integer.0": 9}
+    q.tags.update({"family": "H-TOKEN-BIG", "token": "%s with length %d (%d-byte length prefix)" % ("string" if kind == "S" else "bytes", L, hdr - 1),
+                   "object_bits": 8})
+    q.group = "h_script.bigtoken"
+    return q
+
+
+def biglen_query(root, timeout=900):
+    return Query("biglen.%s" % ("obj" if root == 1 else "arr"), "h_biglen.c", defines={"ROOT": root}, sources=("parser",),
+                 unwindset={"_advance_parsing.0": 4, "_parse_integer.0": 9, "memcmp.0": 4}, unwind=20, checks="mem", timeout=timeout,
+                 mem_gb=2, tags={"family": "H-TOKEN", "what": "one next over a symbolic token header, claimed buffer size symbolic up to 2^33: "
+                                 "every 1/2/4-byte length 0..INT32_MAX, every integer width, doubles"}, group="h_biglen")
+
+
 def big_token_nodes():
     from .shapes import Node
     out = []
@@ -249,16 +289,37 @@ def big_token_nodes():
     return out
 
 
-def shape_variant_queries(propset, root, T, variants=None, scalars=("T", "S1"), max_nest=3, limit=None, extra=None):
+def _sparse_witness(qs, every):
+    """shape queries have concrete control flow; the reachability twin is run for one query in `every` (stable choice)"""
+    import zlib
+    for q in qs:
+        if every > 1 and zlib.crc32(q.name.encode()) % every != 0:
+            q.witness = False
+    return qs
+
+
+def shape_variant_queries(propset, root, T, variants=None, scalars=("T", "S1"), max_nest=3, limit=None, extra=None, nodes=None,
+                          witness_every=1):
     from . import shapes
     qs = []
-    for node in shapes.gen_shapes(root, T, scalars, max_nest):
+    for node in (nodes if nodes is not None else shapes.gen_shapes(root, T, scalars, max_nest)):
         for tag, s in shapes.variant_scripts(node):
             kind = tag.split("@")[0]
             if variants and kind not in variants:
                 continue
             qs.append(shape_script_query(propset, node, s, tag, root, extra=extra))
+    qs = _sparse_witness(qs, witness_every)
     return qs[:limit] if limit else qs
+
+
+def chain_queries(propset, tier, variants=None):
+    from . import shapes
+    qs = []
+    for root in (1, 2):
+        nodes = shapes.chain_shapes(root, 4, True) + (shapes.chain_shapes(root, 5, True) if tier != "quick" else []) + \
+                (shapes.chain_shapes(root, 4, False, leaf="T") if tier != "quick" else [])
+        qs += shape_variant_queries(propset, root, 0, variants=variants, nodes=nodes, witness_every=4)
+    return qs
 
 
 def shape_doc_query(prop, mode, node, root, D=None, unmask=(), name=None, timeout=900, checks="func"):
@@ -302,10 +363,15 @@ def plan_C06(tier):
     alpha = ("GO", "GA", "N", "LO", "LA", "RAW")
     # (1) shape-enumerated: every variant script (full / skip / raw / early leave at every position)
     if tier == "quick":
-        qs += shape_variant_queries(6, 1, 6) + shape_variant_queries(6, 2, 5)
+        qs += shape_variant_queries(6, 1, 6, witness_every=3) + shape_variant_queries(6, 2, 5, witness_every=3)
+        qs += chain_queries(6, tier, variants=("full", "skip", "raw"))
         cfg = [(3, 5, 5, (2,)), (3, 6, 5, (1,))]
     else:
-        qs += shape_variant_queries(6, 1, 8) + shape_variant_queries(6, 2, 7)
+        qs += shape_variant_queries(6, 1, 8, witness_every=8) + shape_variant_queries(6, 2, 7, witness_every=8)
+        qs += chain_queries(6, tier)
+        # deep structure with a single scalar kind: every tree up to 10 tokens, nesting up to 4
+        qs += shape_variant_queries(6, 2, 10, variants=("full", "skip", "raw"), scalars=("T",), max_nest=4, witness_every=16)
+        qs += shape_variant_queries(6, 1, 10, variants=("full", "skip", "raw"), scalars=("T",), max_nest=4, witness_every=16)
         cfg = [(3, 4, None, (2,)), (3, 6, None, (1, 2)), (4, 6, None, (1, 2)), (4, 8, 5, (1, 2)), (5, 6, 5, (1, 2)), (5, 8, 5, (2,))]
     # (2) arbitrary valid documents of n bytes (every byte symbolic), all stack-consistent scripts
     seen = set()
@@ -339,15 +405,16 @@ def plan_C03(tier):
         from . import shapes
         qs.append(shape_script_query(3, node, shapes.full_script(node), "full", root))
     if tier != "quick":
-        for root, node in big_token_nodes():
-            from . import shapes
-            q = shape_script_query(3, node, shapes.full_script(node), "full", root, timeout=1800)
-            q.mem_gb = 6
-            qs.append(q)
+        for kind in ("S", "B"):
+            for L in (127, 128, 300):
+                for root in (1, 2):
+                    qs.append(bigbuf_query(3, root, kind, L))
     qs += shape_variant_queries(3, 1, 6 if tier == "quick" else 8, variants=("full",), scalars=("I1", "S1"))
     qs += shape_variant_queries(3, 2, 5 if tier == "quick" else 7, variants=("full",), scalars=("I1", "S1"))
     # getter neutrality from an arbitrary state
     qs.append(step_query(3, 15, 6, 2, checks="func"))
+    # every length width / integer width with a symbolic claimed buffer size (lengths up to INT32_MAX)
+    qs += [biglen_query(1), biglen_query(2)]
     # arbitrary valid documents
     for (s, n, root) in ([(["GA", "N", "N"], 6, 2), (["GO", "N", "N"], 6, 1)] if tier == "quick" else
                          [(["GA", "N", "N"], 8, 2), (["GO", "N", "N"], 8, 1), (["GA", "N", "GA", "N"], 7, 2), (["GO", "N", "GO", "N"], 8, 1),
@@ -480,10 +547,10 @@ def plan_C10(tier):
     for root, node in token_nodes():
         qs.append(shape_script_query(10, node, shapes.full_script(node), "full", root))
     if tier != "quick":
-        for root, node in big_token_nodes():
-            q = shape_script_query(10, node, shapes.full_script(node), "full", root, timeout=1800)
-            q.mem_gb = 6
-            qs.append(q)
+        for kind in ("S", "B"):
+            for L in (127, 128):
+                for root in (1, 2):
+                    qs.append(bigbuf_query(10, root, kind, L))
     qs += shape_variant_queries(10, 1, 6 if tier == "quick" else 8, variants=("full",), scalars=("I1", "S1"))
     qs += shape_variant_queries(10, 2, 5 if tier == "quick" else 7, variants=("full",), scalars=("I1", "S1"))
     for (s, n, root) in ([(["GA", "N", "N", "LA"], 4, 2)] if tier == "quick" else
@@ -559,10 +626,13 @@ def writer_query(propset, wmode, cap, k=1, wfn=None, extra=None, timeout=600, sr
                        "call": WKIND.get(wfn, "nondet")}, witness=witness, arch=arch, group="h_writer.m%d" % wmode)
 
 
+# integers (symbolic width => symbolic positions of everything behind them) only as the last value before the END
+# integers are left out of the round-trip shapes: a symbolic width makes the position of every later byte symbolic and the
+# query does not finish (10 GB); integer encoding is decided for ALL int64 by the single-token queries, decoding by C03/C10
 RT_SHAPES = [
-    [1, 2], [1, 8, 6, 2], [1, 8, 7, 2], [1, 8, 5, 2], [1, 8, 8, 2], [1, 8, 9, 2],
-    [1, 8, 6, 8, 8, 2], [1, 8, 1, 2, 2], [1, 8, 3, 6, 4, 2], [3, 6, 5, 4], [3, 1, 2, 4], [3, 3, 4, 4],
-    [1, 8, 1, 8, 6, 2, 2], [3, 9, 8, 7, 4], [1, 8, 3, 4, 8, 6, 2],
+    [1, 2], [1, 8, 7, 2], [1, 8, 5, 2], [1, 8, 8, 2], [1, 8, 9, 2], [3, 5, 4], [3, 5, 7, 4],
+    [1, 8, 5, 8, 8, 2], [1, 8, 1, 2, 2], [1, 8, 3, 5, 4, 2], [3, 1, 2, 4], [3, 3, 4, 4],
+    [1, 8, 1, 8, 7, 2, 2], [3, 9, 8, 7, 4], [1, 8, 3, 4, 8, 5, 2],
 ]
 
 
@@ -574,7 +644,9 @@ def rt_query(shape, what, srcmax=3, timeout=1500):
     extra = {"WOPS_LIST": ",".join(str(o) for o in shape), "RT_DEPTH": depth}
     for wv in what:
         extra[wv] = 1
+    extra["RT_FIXLEN"] = 1
     q = writer_query(5, 3, cap, k=len(shape), extra=extra, srcmax=srcmax, timeout=timeout)
+    q.array_fs = True
     q.name = "writer.rt.%s.%s" % ("-".join(str(o) for o in shape), "+".join(w.replace("RT_", "").lower() for w in what))
     q.checks = "func"
     q.mem_gb = 4
@@ -595,16 +667,16 @@ def max_nest(shape):
 def plan_C04(tier):
     qs = []
     if tier == "quick":
-        caps_seq, K = list(range(0, 13)), 3
+        caps_seq, K = list(range(0, 9)), 2
         caps_step = (0, 1, 5, 12)
     else:
-        caps_seq, K = list(range(0, 41)), 4
-        caps_step = (0, 1, 2, 3, 5, 9, 10, 12, 20)
+        caps_seq, K = list(range(0, 21)), 3
+        caps_step = (0, 1, 2, 3, 5, 9, 10, 12, 20, 40)
     for c in caps_seq:
-        qs.append(writer_query(4, 2, c, k=K))
+        qs.append(writer_query(4, 2, c, k=K, srcmax=4, timeout=2400))
     if tier != "quick":
-        for c in range(0, 25):
-            qs.append(writer_query(4, 2, c, k=6))
+        for c in range(0, 9):
+            qs.append(writer_query(4, 2, c, k=4, srcmax=3, timeout=3000))
     for c in caps_step:
         for fn in range(1, 12):
             qs.append(writer_query(4, 1, c, k=1, wfn=fn))
@@ -612,7 +684,8 @@ def plan_C04(tier):
         "rule": "H-WSEQ: one query per capacity c: K write calls whose kinds and arguments (all int64, all doubles, lengths "
                 "<= 6 copied or > c never copied, <= 70000) are symbolic, destination object of exactly c bytes. "
                 "H-WSTEP: one query per (call kind, c): arbitrary writer state (counter any size_t, any error code) + one call.",
-        "bounds": {"capacities_seq": [min(caps_seq), max(caps_seq)], "K": K, "capacities_step": list(caps_step), "copied_payload_max": 6},
+        "bounds": {"capacities_seq": [min(caps_seq), max(caps_seq)], "K": K, "capacities_step": list(caps_step), "copied_payload_max": 6,
+                   "note": "H-WSTEP is an induction step (arbitrary counter and error state), so it covers write sequences of any length; H-WSEQ re-checks the end-to-end statement for short sequences"},
         "outside": ["copied payloads longer than 6 bytes", "capacities above the listed ones (H-WSTEP covers any counter value for the listed capacities)"],
         "assumptions": ["reference encoder model/ref_encode.h is the specification of the encoding",
                         "source pointers are valid for the given length whenever the piece can fit"],
@@ -626,14 +699,14 @@ def plan_C05(tier):
     for fn in (5, 6, 7, 8, 9, 10):
         for c in ((12,) if tier == "quick" else (5, 12, 20)):
             qs.append(writer_query(5, 1, c, k=1, wfn=fn))
-    shapes = RT_SHAPES[:8] if tier == "quick" else RT_SHAPES
+    shapes = RT_SHAPES[:6] if tier == "quick" else RT_SHAPES
     for s in shapes:
         qs.append(rt_query(s, ["RT_VERIFY"]))
-        if tier != "quick" or len(s) <= 4:
+        if tier != "quick" or len(s) <= 3:
             qs.append(rt_query(s, ["RT_DECODE"]))
-    for s in (RT_SHAPES[:2] if tier == "quick" else RT_SHAPES[:6]):
+    for s in ([[1, 2], [1, 8, 5, 2]] if tier == "quick" else RT_SHAPES[:6]):
         if s[0] == 1:
-            qs.append(rt_query(s, ["RT_WVERIFY"], timeout=2400))
+            qs.append(rt_query(s, ["RT_WVERIFY"], timeout=3000))
     info = {
         "rule": "H-WSTEP with the C05 assertion set: one query per scalar call kind: all int64 / all double bit patterns / all "
                 "lengths, bytes compared with the reference canonical encoder. Round trip: one query per concrete well-formed "
@@ -666,8 +739,22 @@ def print_query(propset, pmode, n, D, root, tcap=40, timeout=2400, extra=None, n
                        "capacity": "symbolic 0..%d" % tcap if pmode == 1 else tcap}, group="h_print.m%d" % pmode)
 
 
+def print_shapes(tier):
+    from . import shapes
+    out = []
+    for root in (1, 2):
+        T = (6 if root == 1 else 5) if tier == "quick" else (8 if root == 1 else 6)
+        for node in shapes.gen_shapes(root, T, ("T", "B1"), 3):
+            out.append((root, node))
+    for root, node in token_nodes():
+        out.append((root, node))
+    return out
+
+
 def plan_C13(tier):
     qs = []
+    for root, node in print_shapes(tier):
+        qs.append(shape_print_query(13, 1, node, root, tcap=40))
     ns = (2, 5, 6) if tier == "quick" else (2, 5, 6, 7, 8)
     for n in ns:
         for root in (1, 2):
@@ -691,6 +778,9 @@ def plan_C13(tier):
 
 def plan_C14(tier):
     qs = []
+    for root, node in print_shapes(tier):
+        qs.append(shape_print_query(14, 2, node, root, tcap=64))
+        qs.append(shape_print_query(14, 3, node, root, tcap=64))
     ns = (5, 6, 7) if tier == "quick" else (5, 6, 7, 8, 9, 10)
     for n in ns:
         for root in (1, 2):
@@ -741,8 +831,8 @@ def plan_C09(tier):
     for c in ((0, 5, 12) if tier == "quick" else (0, 1, 2, 5, 9, 12, 20)):
         for fn in range(1, 12):
             qs.append(writer_query(9, 1, c, k=1, wfn=fn))
-    for c in ((3, 8) if tier == "quick" else range(0, 17)):
-        qs.append(writer_query(9, 2, c, k=3))
+    for c in ((3, 6) if tier == "quick" else range(0, 13)):
+        qs.append(writer_query(9, 2, c, k=2 if tier == "quick" else 3, srcmax=4, timeout=2400))
     info = {
         "rule": "parser: H-STEP from an ARBITRARY state with error_flags != NONE (only the structural part of Inv assumed), one call "
                 "per query: returns false / neutral, error stays set, cursor and depth unchanged; plus from an error-free state: a call "
@@ -777,9 +867,6 @@ def plan_C12(tier):
     for n in ((0, 1, 2, 4) if tier == "quick" else range(0, 9)):
         for root in (1, 2):
             qs.append(tworun_query(1, n, 2, root))
-    # observable form: dirty (abandoned traversal of another document) vs fresh parser, same script afterwards
-    for (n, root) in ([(4, 2)] if tier == "quick" else [(4, 2), (5, 2), (6, 1), (6, 2)]):
-        qs.append(tworun_query(2, n, 2, root, timeout=2400))
     # reset / verify from any Inv state
     for fn in (13, 14):
         for n, D in ([(4, 2)] if tier == "quick" else [(4, 2), (6, 2), (8, 1)]):
@@ -791,8 +878,8 @@ def plan_C12(tier):
         qs.append(writer_query(12, 4, c))
     info = {
         "rule": "H-DOC verify;verify; H-2RUN: two parser objects with DIFFERENT arbitrary prior contents (struct and state array) over the "
-                "same buffer are field-wise equal after init, and a parser reused after an abandoned traversal of another symbolic "
-                "document answers a following script exactly like a fresh one; H-STEP: reset / successful verify from any state == init "
+                "same buffer are field-wise equal after init; "
+                "H-STEP: reset / successful verify from any state == init "
                 "state; writer init/reset from arbitrary prior contents.",
         "bounds": {"n": list(ns), "D": 2},
         "outside": ["documents longer than listed", "observable form only for short scripts (K <= 3)"],
@@ -942,7 +1029,7 @@ def plan_C01_full(tier):
         node = Node("T")
         for k in range(D + 1):
             node = Node("O", [node], [0])
-        s = ["GO"] + ["N", "GO"] * (D + 1)
+        s = ["GO"] + ["N", "GO"] * (D + 1) + ["LO", "LA", "N", "RAW"]     # return values ignored: keep calling after MAX_DEPTH
         q = shape_script_query(1, node, s, "too-deep", 1, D=D, checks="mem", extra={"MODE": 3})
         q.name += ".D%d" % D
         qs.append(q)
@@ -950,7 +1037,7 @@ def plan_C01_full(tier):
         for k in range(D):
             node = Node("O", [node], [0])
         node = Node("A", [node], [])
-        s = ["GA"] + ["N", "GO"] * D
+        s = ["GA"] + ["N", "GO"] * D + ["LO", "LA", "N", "RAW"]
         q = shape_script_query(1, node, s, "too-deep", 2, D=D, checks="mem", extra={"MODE": 3})
         q.name += ".D%d" % D
         qs.append(q)
@@ -975,12 +1062,14 @@ def plan_C02_full(tier):
         b = [0x42, base] + [0] * (w + 4) + [0x43]
         m = [1, 1] + [0] * (w + 4) + [1]
         q = doc_query("C02", 1, n, 1, 2, timeout=1800)
-        q.defines.update({"SK_LEN": n, "SK_BYTES": ",".join(str(x) for x in b), "SK_MASK": ",".join(str(x) for x in m), "WIT_VALID": 1})
+        q.defines.update({"SK_LEN": n, "SK_BYTES": ",".join(str(x) for x in b), "SK_MASK": ",".join(str(x) for x in m),
+                          "WIT_VALID": 1 if w < 4 else 0})
         q.name = "lenfield.0x%02x" % base
         q.array_fs = True
         q.tags.update({"family": "H-TOKEN", "what": "length field of %d symbolic bytes + 4 symbolic trailing bytes" % w})
         qs.append(q)
     qs.append(leaf_query("parse_integer"))
+    qs += [biglen_query(1), biglen_query(2)]
     if tier != "quick":
         # D = 10 (the default depth) on small buffers
         for n in (4, 6):
